@@ -252,6 +252,7 @@ def validate_trace(module, cfg, path, *, chunk=15000, timeout=900, par=8, workdi
     d = scratch('verif-t-')
     jobs = []
     start, ci = 0, 0
+    chunk = min(chunk, max(500, -(-n // max(1, par))))     # spread a mid-sized trace over the available cores
     while start < n:
         end = min(n, start + chunk)
         if split_on:
